@@ -5,7 +5,7 @@ existing tests of the named crates green, and that its demonstration fails with 
 passes without it.  Writes /verif/seeded/<seed_name>/{patch.diff,demo.diff,README.md,meta.json}."""
 import argparse, json, os, re, shutil, subprocess, sys, time
 
-KNOWN_FAIL = re.compile(r'pty_|grep_reports_unreadable|ls_reports_unreadable_entries|local_authority_recovers_from_stale_lock|pipes_task_applies_cwd_and_env')
+KNOWN_FAIL = re.compile(r'pty_|run_task_writes_stdout_and_stderr_logs|list_checkpoints_sorted|grep_reports_unreadable|ls_reports_unreadable_entries|local_authority_recovers_from_stale_lock|pipes_task_applies_cwd_and_env')
 WT = '/tmp/wt_confirm'
 
 def sh(cmd, cwd=WT, timeout=3600):
